@@ -166,7 +166,11 @@ def run(S, tier, rep):
     parallel_over(S, rep, "sa.props.c01", "check_config", cfgs)
     from .c10 import wrappers_forward_options
     wrappers_forward_options(S, rep, rule="C01.w", family_root="FlowSimulator", min_found=3)
-    rep.require_min("C01.w", 3)
+    # the create_* helpers are the documented way to choose the solver, the flow type, the filter ...: an argument they do not
+    # pass on leaves the simulator on the class default (a different Poisson solve, hence a different velocity)
+    from .c16 import factories_forward_options
+    factories_forward_options(S, rep, rule="C01.w")
+    rep.require_min("C01.w", 7)
     rep.note("configurations", len(cfgs))
     rep.require_min("C01.a", 60)
     rep.require_min("C01.d", 15)
